@@ -68,6 +68,13 @@ def strategy(shard):
         if r == 0:
             return draw(boundary_pilot())
         cfg = draw(_finite_cfg())
+        if mode == "pilot" and draw(st.integers(0, 25)) == 0:
+            # a population of a few thousand and a pilot barely above the null mean: the first crossing comes late
+            cfg["N"] = draw(st.sampled_from([1100, 1500, 1800, 2500, 3000, 3100]))
+            u, t = cfg["u"], cfg["t"]
+            d = draw(st.sampled_from([0.01, 0.02, 0.03, 0.05, 0.08, 0.12]))
+            x = [min(u, t * (1 + 2 * d)), t, min(u, t * (1 + d))]
+            return {"mode": mode, "cfg": cfg, "x": [float(v) for v in x], "alpha": draw(st.sampled_from(ALPHAS))}
         if r == 1:
             # front-loaded pilot: its large values come first, its mean is at most t - the history crosses early all the same
             N, u, t = cfg["N"], cfg["u"], cfg["t"]
@@ -372,6 +379,8 @@ def evaluate(case, out):
             out.expect(got2 == k and asn.sample_size == k, "assertion-level-estimate-from-pilot!=first-crossing", lambda: {"got": got2, "want": k})
             out.nontrivial = (1 < k < N) or not crossed
             out.cls("never-crosses" if not crossed else "crosses")
+            if crossed and 1024 < k < N:
+                out.cls("first-crossing-after-1024-draws")
             return
         if not crossed or k >= N:
             out.skip("prefix:pilot-never-crosses")
